@@ -5,6 +5,10 @@ cd "$(dirname "$0")"
 for p in $(python3 -c "import json;print(' '.join(c['property_id'] for c in json.load(open('MANIFEST.json'))['checks']))"); do
   ./check $p --tier $TIER > /tmp/runall_$p.txt 2>&1; rc=$?
   echo "$p exit=$rc $(tail -1 /tmp/runall_$p.txt | cut -c1-170)"
-  grep -A1 "^VIOLATION" /tmp/runall_$p.txt | grep signature | head -5
+  if [ $rc -ne 0 ]; then
+    # keep what a later triage needs even if the run's snapshot is removed
+    grep -E "^VIOLATION|^  signature|^  detail" /tmp/runall_$p.txt | cut -c1-700 | head -12
+    mkdir -p "${SOAK_KEEP:=/tmp/soak_keep}" && for f in $(grep "^VIOLATION" /tmp/runall_$p.txt | sed 's/.*replay=//'); do cp "$f" "$SOAK_KEEP/" 2>/dev/null; done
+  fi
   grep "^HARNESS-ERROR" /tmp/runall_$p.txt | head -2 | cut -c1-200
 done
